@@ -83,7 +83,7 @@ type ContractDB struct {
 var clauseKinds = map[string]bool{
 	"props": true, "mode": true, "requires": true, "ensures": true, "modifies": true,
 	"loop": true, "lemma": true, "ghost": true, "panics-when": true, "search-pred": true,
-	"replay": true, "replay-reader": true, "returns": true, "callsite": true, "trusted": true, "assume": true, "unroll": true, "inline": true,
+	"replay": true, "replay-reader": true, "returns": true, "callsite": true, "search": true, "trusted": true, "assume": true, "unroll": true, "inline": true,
 	"reads": true, "pure": true, "let": true, "assert": true, "nosafety": true,
 	"crash-invariant": true, "frame": true, "closure": true, "bound": true,
 }
@@ -235,6 +235,24 @@ func parseContractFile(db *ContractDB, path string, defaultPkg string) error {
 				r = r[len(m[0]):]
 			}
 			cl.Text = r
+		case "search":
+			// search N: j => pred(j)    (the predicate of the N-th sort.Search call, as a spec formula in j)
+			i := strings.Index(rest, ":")
+			k := strings.Index(rest, "=>")
+			if i < 0 || k < i {
+				return fmt.Errorf("%s:%d: search N: j => pred", path, ln)
+			}
+			n, err := strconv.Atoi(strings.TrimSpace(rest[:i]))
+			if err != nil {
+				return fmt.Errorf("%s:%d: search N: j => pred", path, ln)
+			}
+			cl.Loop = 0
+			cl.Index = n
+			cl.Name = strings.TrimSpace(rest[i+1 : k])
+			cl.Text = strings.TrimSpace(rest[k+2:])
+			cur.Clauses = append(cur.Clauses, cl)
+			last = cl
+			continue
 		case "callsite":
 			// callsite <callee short name>: expr   (checked at every call of that callee inside this function)
 			if i := strings.Index(rest, ":"); i >= 0 {
